@@ -1,6 +1,7 @@
 package streams
 
 import (
+	"sort"
 	"bytes"
 	"context"
 	"fmt"
@@ -109,10 +110,12 @@ func runCorpus(idx int, faults map[int]string) (*scenario, clusterView, bool, in
 	sc.installClock()
 	sc.w.globalFaults = faults
 	sc.w.totalWrites = 0
+	sc.w.globalLog = nil
 	c.script(sc)
 	rounds := sc.settle(40)
 	sc.w.globalFaults = nil
 	writes := sc.w.totalWrites
+	sc.faultLog = append([]string{}, sc.w.globalLog...)
 	// a few more fault-free rounds: recovery must complete
 	extra := sc.settle(30)
 	_ = extra
@@ -123,6 +126,9 @@ func runCorpus(idx int, faults map[int]string) (*scenario, clusterView, bool, in
 var corpusBaseline = map[int]struct {
 	view   clusterView
 	writes int
+	// byKind: the indices of the failure-free run's writes, grouped by "verb:Kind"
+	byKind map[string][]int
+	kinds  []string
 }{}
 
 func streamScenarioFaults(r *rand.Rand, i int, tier string) *Case {
@@ -131,8 +137,18 @@ func streamScenarioFaults(r *rand.Rand, i int, tier string) *Case {
 	kind := kinds[(i/len(corpus))%len(kinds)]
 	base, ok := corpusBaseline[idx]
 	if !ok {
-		_, v, _, w := runCorpus(idx, nil)
+		sc0, v, _, w := runCorpus(idx, nil)
 		base.view, base.writes = v, w
+		base.byKind = map[string][]int{}
+		for g, l := range sc0.faultLog {
+			if g < w {
+				base.byKind[l] = append(base.byKind[l], g)
+			}
+		}
+		for l := range base.byKind {
+			base.kinds = append(base.kinds, l)
+		}
+		sort.Strings(base.kinds)
 		corpusBaseline[idx] = base
 	}
 	var k int
@@ -142,7 +158,12 @@ func streamScenarioFaults(r *rand.Rand, i int, tier string) *Case {
 			return nil
 		}
 	} else {
-		k = r.Intn(base.writes)
+		// quick tier: the fault position is drawn per kind of write (pod creation, pod deletion,
+		// replica-set status, EDS status, EDS spec, ...), kinds taken in turn, so that every
+		// (scenario, fault kind, kind of write) combination is visited
+		wk := base.kinds[(i/(len(corpus)*len(kinds)))%len(base.kinds)]
+		ix := base.byKind[wk]
+		k = ix[r.Intn(len(ix))]
 	}
 	faults := map[int]string{k: kind}
 	pair := false
@@ -155,6 +176,9 @@ func streamScenarioFaults(r *rand.Rand, i int, tier string) *Case {
 	sc.steps = append(sc.steps, stepJ{"same_fixpoint", "final", map[string]interface{}{"baseline": base.view, "faulted": v, "ns": sc.ns, "eds": sc.name},
 		map[string]interface{}{"converged": converged}})
 	cat := []string{"scenario:" + corpus[idx].name, "fault:" + kind, fmt.Sprintf("pair:%v", pair)}
+	if k < len(sc.faultLog) {
+		cat = append(cat, "fault-on:"+sc.faultLog[k])
+	}
 	return &Case{Fn: "scenario", In: map[string]interface{}{"ops": sc.ops, "scenario": corpus[idx].name, "faultAt": k, "kind": kind, "writes": base.writes},
 		Out: map[string]interface{}{"steps": sc.steps}, Cat: cat}
 }
